@@ -151,11 +151,6 @@ Proof.
 Qed.
 
 (* ---- rendered terms ---------------------------------------------------------------------------------------------- *)
-(* rterm R v: R is the text one of the serialisers writes for the stored value v *)
-Inductive rterm : str -> str -> Prop :=
-| RT_angle : forall s, forallb iri_char s = true -> rterm (angle s) s
-| RT_bn : forall s, wf_bnode s = true -> rterm s s
-| RT_lit : forall v, rterm (quoted v) v.
 
 Lemma wf_iri_chars : forall s, wf_iri s = true -> forallb iri_char s = true.
 Proof. intros s H. unfold wf_iri in H. now apply andb_true_iff in H as [_ H]. Qed.
@@ -220,25 +215,153 @@ Proof.
     intros x Hx. now apply bn_char_facts.
 Qed.
 
+(* ---- a rendered quoted triple "<< s p o >>" (bare components): the depth counter returns to its value ----------------------- *)
+(* characters of the components of a safe quoted triple *)
+Definition pq (c : N) : bool := negb ((c =? cLT) || (c =? cGT) || (c =? cDQ) || (c =? cLF)).
+
+Lemma p_go_step2 : forall s c c2 r s1, p_step s c (Some c2) = (s1, true) -> p_go s (c :: c2 :: r) = p_go s1 r.
+Proof. intros s c c2 r s1 H. cbn [p_go hd_error]. now rewrite H. Qed.
+
+Lemma p_step_depth : forall ps cur d c pk, (0 <? d) = true -> pq c = true ->
+  p_step (PS ps cur false false false d PNormal) c pk = (PS ps (cur ++ [c]) false false false d PNormal, false).
+Proof.
+  intros ps cur d c pk Hd Hc. unfold pq in Hc. apply negb_true_iff in Hc.
+  apply orb_false_iff in Hc as [Hc _]. apply orb_false_iff in Hc as [Hc H3]. apply orb_false_iff in Hc as [H1 H2].
+  assert (Hd0 : (d =? 0) = false) by lia.
+  unfold p_step, p_normal. cbn [p_mode p_lit p_esc p_uri p_dep p_cur p_parts].
+  rewrite H1, H2, H3, Hd0. cbn [negb andb orb]. rewrite !andb_false_r. reflexivity.
+Qed.
+
+Lemma p_depth_plain : forall X ps cur d rest, (0 <? d) = true -> forallb pq X = true ->
+  p_go (PS ps cur false false false d PNormal) (X ++ rest) = p_go (PS ps (cur ++ X) false false false d PNormal) rest.
+Proof.
+  induction X as [|c X IH]; intros ps cur d rest Hd H; [now rewrite app_nil_r|].
+  cbn in H. apply andb_true_iff in H as [Hc HX]. cbn [app].
+  erewrite p_go_step by (now apply p_step_depth). rewrite IH by assumption. now rewrite <- app_assoc.
+Qed.
+
+Lemma p_step_open : forall ps cur d,
+  p_step (PS ps cur false false false d PNormal) cLT (Some cLT) = (PS ps (cur ++ [cLT] ++ [cLT]) false false false (d + 1) PNormal, true).
+Proof.
+  intros. unfold p_step, p_normal. cbn [p_mode p_lit p_esc p_uri p_dep p_cur p_parts peek_is].
+  replace (cLT =? cLT) with true by reflexivity. cbn [negb andb]. unfold p_set_dep, p_push.
+  cbn [p_mode p_lit p_esc p_uri p_dep p_cur p_parts]. now rewrite <- app_assoc.
+Qed.
+
+Lemma p_step_close : forall ps cur d,
+  p_step (PS ps cur false false false (d + 1) PNormal) cGT (Some cGT) =
+  (if d =? 0 then PS (ps ++ [trim (cur ++ [cGT] ++ [cGT])]) [] false false false d PNormal
+   else PS ps (cur ++ [cGT] ++ [cGT]) false false false d PNormal, true).
+Proof.
+  intros. unfold p_step, p_normal. cbn [p_mode p_lit p_esc p_uri p_dep p_cur p_parts peek_is].
+  replace (cGT =? cLT) with false by reflexivity. replace (cGT =? cGT) with true by reflexivity.
+  replace (0 <? d + 1) with true by lia. cbn [negb andb].
+  unfold p_set_dep, p_push, p_emit. cbn [p_mode p_lit p_esc p_uri p_dep p_cur p_parts].
+  rewrite N.add_sub, <- app_assoc. destruct (d =? 0); reflexivity.
+Qed.
+
+Definition qleafb (t : qterm) : bool := match t with QQt _ _ _ => false | _ => true end.
+
+Lemma word_char_pq : forall c, word_char c = true -> pq c = true.
+Proof. intros c H. unfold word_char, is_ws, cLT, cGT, cDQ, cBS in H. unfold pq, cLT, cGT, cDQ, cLF. lia. Qed.
+
+Lemma join_words_pq : forall ws, forallb word_ok ws = true -> forallb pq (join [cSP] ws) = true.
+Proof.
+  induction ws as [|w ws IH]; intro H; [reflexivity|].
+  cbn in H. apply andb_true_iff in H as [Hw Hws]. unfold word_ok in Hw. apply andb_true_iff in Hw as [_ Hw].
+  assert (Hq : forallb pq w = true).
+  { apply forallb_forall. intros c Hc. rewrite forallb_forall in Hw. now apply word_char_pq, Hw. }
+  destruct ws as [|w2 ws']; [exact Hq|].
+  change (join [cSP] (w :: w2 :: ws')) with (w ++ [cSP] ++ join [cSP] (w2 :: ws')).
+  rewrite !forallb_app, Hq, (IH Hws). reflexivity.
+Qed.
+
+Lemma iri_chars_pq : forall s, forallb iri_char s = true -> forallb pq s = true.
+Proof.
+  intros s H. apply forallb_forall. intros c Hc. rewrite forallb_forall in H.
+  destruct (iri_char_basic c (H c Hc)) as (H1 & H2 & H3 & _ & _ & _ & H7). unfold pq. now rewrite H1, H2, H3, H7.
+Qed.
+
+Lemma qleaf_pq : forall t, qsafe t = true -> qleafb t = true -> forallb pq (qrender t) = true.
+Proof.
+  intros [s|s|ws|a b c] H Hl; try discriminate; cbn [qsafe qrender] in *.
+  - apply andb_true_iff in H as [H _]. now apply iri_chars_pq, wf_iri_chars.
+  - destruct (wf_bnode_shape s H) as (c & r & -> & Hb).
+    change (forallb pq (cUS :: cCOLON :: c :: r)) with (forallb pq (c :: r)).
+    apply forallb_forall. intros x Hx. rewrite forallb_forall in Hb. destruct (bn_char_facts x (Hb x Hx)) as (Hp & _ & Hlf).
+    unfold tok_plain, cLT, cGT, cDQ, cSP, cTAB in Hp. unfold cLF in Hlf. unfold pq, cLT, cGT, cDQ, cLF. lia.
+  - apply andb_true_iff in H as [H _]. now apply join_words_pq.
+Qed.
+
+Lemma p_depth_term : forall t, qsafe t = true -> forall ps cur d rest, (0 <? d) = true ->
+  p_go (PS ps cur false false false d PNormal) (qrender t ++ rest) =
+  p_go (PS ps (cur ++ qrender t) false false false d PNormal) rest.
+Proof.
+  induction t as [s|s|ws|a IHa b IHb c IHc]; intros Hs ps cur d rest Hd.
+  1-3: apply p_depth_plain; [assumption|now apply qleaf_pq].
+  cbn [qsafe] in Hs. apply andb_true_iff in Hs as [Hs Hc]. apply andb_true_iff in Hs as [Hs _].
+  apply andb_true_iff in Hs as [Hs Hb]. apply andb_true_iff in Hs as [Ha _].
+  assert (Hd1 : (0 <? d + 1) = true) by lia. assert (Hd0 : (d =? 0) = false) by lia.
+  cbn [qrender]. unfold sLTLT, sGTGT. repeat (rewrite <- app_assoc; cbn [app]).
+  erewrite p_go_step2 by apply p_step_open.
+  erewrite p_go_step by (now apply p_step_depth). rewrite IHa by assumption.
+  erewrite p_go_step by (now apply p_step_depth). rewrite IHb by assumption.
+  erewrite p_go_step by (now apply p_step_depth). rewrite IHc by assumption.
+  erewrite p_go_step by (now apply p_step_depth).
+  erewrite p_go_step2 by apply p_step_close. rewrite Hd0.
+  f_equal. f_equal. repeat (rewrite <- app_assoc; cbn [app]). reflexivity.
+Qed.
+
+Lemma qrender_trim : forall a b c, trim (qrender (QQt a b c)) = qrender (QQt a b c).
+Proof.
+  intros. apply trim_id; [reflexivity|]. cbn [qrender]. rewrite !app_assoc. rewrite last_not_app by discriminate. reflexivity.
+Qed.
+
+Lemma go_qt_top : forall a b c ps rest, qsafe (QQt a b c) = true ->
+  p_go (cst ps) (qrender (QQt a b c) ++ rest) = p_go (cst (ps ++ [qrender (QQt a b c)])) rest.
+Proof.
+  intros a b c ps rest Hs. rewrite <- (qrender_trim a b c) at 2.
+  cbn [qsafe] in Hs. apply andb_true_iff in Hs as [Hs Hc]. apply andb_true_iff in Hs as [Hs _].
+  apply andb_true_iff in Hs as [Hs Hb]. apply andb_true_iff in Hs as [Ha _].
+  assert (Hd1 : (0 <? 0 + 1) = true) by reflexivity.
+  cbn [qrender]. unfold sLTLT, sGTGT, cst. repeat (rewrite <- app_assoc; cbn [app]).
+  erewrite p_go_step2 by apply p_step_open.
+  erewrite p_go_step by (now apply p_step_depth). rewrite p_depth_term by assumption.
+  erewrite p_go_step by (now apply p_step_depth). rewrite p_depth_term by assumption.
+  erewrite p_go_step by (now apply p_step_depth). rewrite p_depth_term by assumption.
+  erewrite p_go_step by (now apply p_step_depth).
+  erewrite p_go_step2 by apply p_step_close. cbn [N.eqb].
+  f_equal. f_equal. f_equal. f_equal. repeat (rewrite <- app_assoc; cbn [app]). reflexivity.
+Qed.
+
+(* rterm R v: R is the text one of the serialisers writes for the stored value v *)
+Inductive rterm : str -> str -> Prop :=
+| RT_angle : forall s, forallb iri_char s = true -> rterm (angle s) s
+| RT_bn : forall s, wf_bnode s = true -> rterm s s
+| RT_lit : forall v, rterm (quoted v) v
+| RT_qt : forall a b c, qsafe (QQt a b c) = true -> rterm (qrender (QQt a b c)) (qrender (QQt a b c)).
+
 Lemma tok_term_sp : forall R v ps rest, rterm R v ->
   p_go (cst ps) (R ++ cSP :: rest) = p_go (cst (ps ++ [R])) rest.
 Proof.
-  intros R v ps rest H. destruct H as [s H|s H|v].
+  intros R v ps rest H. destruct H as [s H|s H|v|a b c H].
   - rewrite go_angle by assumption. apply go_sp_clean.
   - destruct (wf_bnode_plain s H) as (Hp & Ht & Hne).
     unfold cst at 1. rewrite go_plain_body by assumption. cbn [app].
     rewrite go_plain_sp by assumption. now rewrite Ht.
   - apply go_quoted_sp.
+  - rewrite go_qt_top by assumption. apply go_sp_clean.
 Qed.
 
 Lemma tok_term_end : forall R v ps, rterm R v -> p_go (cst ps) R = ps ++ [R].
 Proof.
-  intros R v ps H. destruct H as [s H|s H|v].
+  intros R v ps H. destruct H as [s H|s H|v|a b c H].
   - rewrite <- (app_nil_r (angle s)) at 1. rewrite go_angle by assumption. reflexivity.
   - destruct (wf_bnode_plain s H) as (Hp & Ht & Hne).
     rewrite <- (app_nil_r s) at 1. unfold cst. rewrite go_plain_body by assumption. cbn [app].
     rewrite go_plain_end by assumption. now rewrite Ht.
   - apply go_quoted_end.
+  - rewrite <- (app_nil_r (qrender (QQt a b c))) at 1. rewrite go_qt_top by assumption. reflexivity.
 Qed.
 
 (* tokenize_rendered_line: the tokenizer returns exactly the rendered terms of a rendered line *)
